@@ -403,6 +403,7 @@ func (s *Skiplist) Search(key []byte) kv.ValueStruct {
 
 	valOffset, valSize := n.getValueOffset()
 	vs := s.arena.getVal(valOffset, valSize)
+	vs.Version = kv.ParseTs(nextKey)
 	return vs
 }
 
